@@ -79,7 +79,7 @@ def run(ctx):
         "samples": [cl.keys[m[0]] for m in meta[:5]],
     })
     for f in fails[:3]:
-        ctx.violation(f"{f.get('class')}: {f['what']}", dict(kind="c08", **f))
+        ctx.violation(f"{f.get('class')}: {f['what']}", {**f, "check": "c08"})
     if disagreements and not fails:
         ctx.broken.append(f"index model disagrees with kio.index: {disagreements[0]}")
 
